@@ -178,12 +178,22 @@ int libwifi_get_wpa_data(struct libwifi_frame *frame, struct libwifi_wpa_auth_da
             data->key_info.key_data_length = 1024;
         }
 
+        // The key data cannot be longer than what the frame actually carries
+        size_t key_data_offset = sizeof(struct libwifi_logical_link_ctrl) +
+                                 sizeof(struct libwifi_wpa_auth_data) - sizeof(unsigned char *);
+        size_t key_data_available = (frame->len - frame->header_len) - key_data_offset;
+        if (data->key_info.key_data_length > key_data_available) {
+            data->key_info.key_data_length = key_data_available;
+        }
+    }
+
+    if (data->key_info.key_data_length > 0) {
+        size_t key_data_offset = sizeof(struct libwifi_logical_link_ctrl) +
+                                 sizeof(struct libwifi_wpa_auth_data) - sizeof(unsigned char *);
         data->key_info.key_data = malloc(data->key_info.key_data_length);
         if (data->key_info.key_data == NULL) {
             return -ENOMEM;
         }
-        size_t key_data_offset = sizeof(struct libwifi_logical_link_ctrl) +
-                                 sizeof(struct libwifi_wpa_auth_data) - sizeof(unsigned char *);
         memcpy(data->key_info.key_data, frame->body + key_data_offset, data->key_info.key_data_length);
     }
 
